@@ -1114,3 +1114,138 @@ def none_is_the_only_absence(ctx, rid: str, table) -> None:
         c.ob(rid, ok, f, f"absence-is-none:{meth}:{var}", f"'{var}' is tested for absence with 'is None' ({len(none_tests)} test(s)); falsy values are kept" if ok else
              f"'{var}' is used as a truth value in {f.short} ('{stmt_text(bare[0][0], 70)}'): a legitimate falsy value (0, False, '', [], {{}}) is treated as "
              f"'not given' and silently replaced / dropped", bare[0][0] if bare else f.node)
+
+
+_MUTATORS = {"pop", "popitem", "clear", "update", "setdefault", "append", "extend", "insert", "remove", "sort", "reverse"}
+
+
+def definition_is_read_only(ctx, rid: str, modules, what: str) -> None:
+    """Data that belongs to the caller or to the machine definition is never mutated by the library at parse or run time:
+    the raw config handed to create_machine(), an action's / guard's ``params`` object, an event dict, a persisted snapshot,
+    the MachineLogic registries reached through ``self.machine``.  (A ``get`` turned into a ``pop`` works once: the second
+    build from the same config, the second execution of the same action, the second spawn of the same service sees less.)
+    Tracked: parameters of the function and locals assigned from ``<tracked>.get(...)`` / ``<tracked>[...]`` / ``<tracked>.<attr>``
+    (aliases of caller data), plus every expression rooted at ``self.machine``.  A local that is rebuilt (``dict(x)``, a literal,
+    a comprehension, ``copy.deepcopy``) is the function's own and may be mutated."""
+    c, p = ctx.c, ctx.p
+    n = 0
+    for f in p.funcs_in(*modules):
+        params = {a for a in f.params if a not in ("self", "cls")}
+        if not params and "self.machine" not in norm(f.node):
+            continue
+        tracked = set(params)
+        changed = True
+        assigns = [a for a in own_nodes(f.node) if isinstance(a, ast.Assign) and isinstance(a.targets[0], ast.Name)]
+        own = set()
+        for a in assigns:
+            v = a.value
+            if isinstance(v, (ast.Dict, ast.List, ast.Set, ast.ListComp, ast.DictComp, ast.SetComp, ast.Constant, ast.JoinedStr, ast.Tuple)) or \
+                    (isinstance(v, ast.Call) and norm(v.func) in ("dict", "list", "set", "tuple", "sorted", "copy.deepcopy", "copy.copy", "deepcopy", "OrderedDict", "defaultdict")):
+                own.add(a.targets[0].id)
+        def _mentions_tracked(e):
+            return any(isinstance(y, ast.Name) and y.id in tracked for y in ast.walk(e)) or any(norm(y) in tracked for y in ast.walk(e) if isinstance(y, ast.Attribute))
+        attr_assigns = [a for a in own_nodes(f.node) if isinstance(a, (ast.Assign, ast.AnnAssign)) and isinstance((a.targets[0] if isinstance(a, ast.Assign) else a.target), ast.Attribute)
+                        and norm((a.targets[0] if isinstance(a, ast.Assign) else a.target).value) == "self" and getattr(a, "value", None) is not None]
+        loops_ = [l for l in own_nodes(f.node) if isinstance(l, ast.For)]
+        while changed:
+            changed = False
+            for a in attr_assigns:
+                tg = norm(a.targets[0] if isinstance(a, ast.Assign) else a.target)
+                v = a.value
+                if tg not in tracked and ((isinstance(v, ast.Call) and isinstance(v.func, ast.Attribute) and v.func.attr == "get" and _mentions_tracked(v.func.value)) or
+                                          (isinstance(v, ast.Name) and v.id in tracked)):
+                    tracked.add(tg)
+                    changed = True
+            for l in loops_:
+                it = l.iter
+                core = it
+                if isinstance(core, ast.Call) and isinstance(core.func, ast.Attribute) and core.func.attr in ("items", "values"):
+                    core = core.func.value
+                if isinstance(core, ast.BoolOp):
+                    core = core.values[0]
+                if isinstance(core, ast.Call) and isinstance(core.func, ast.Attribute) and core.func.attr == "get":
+                    core = core.func.value
+                if (isinstance(core, ast.Name) and core.id in tracked) or norm(core) in tracked:
+                    tnames = [l.target] if isinstance(l.target, ast.Name) else ([e for e in l.target.elts if isinstance(e, ast.Name)] if isinstance(l.target, ast.Tuple) else [])
+                    # for k, v in d.items(): the values are the caller's objects (keys are immutable)
+                    for e in (tnames[-1:] if isinstance(l.target, ast.Tuple) else tnames):
+                        if e.id not in tracked:
+                            tracked.add(e.id)
+                            changed = True
+            for a in assigns:
+                nm = a.targets[0].id
+                v0 = a.value
+                if nm not in tracked and nm not in own:
+                    cand = v0.values[0] if isinstance(v0, ast.BoolOp) and isinstance(v0.op, ast.Or) and not isinstance(v0.values[-1], (ast.List,)) else v0
+                    if isinstance(cand, ast.Call) and norm(cand.func).endswith(("_resolve_params",)) and cand.args and _mentions_tracked(cand.args[0]):
+                        tracked.add(nm)
+                        changed = True
+                        continue
+                    if isinstance(cand, ast.Call) and isinstance(cand.func, ast.Attribute) and cand.func.attr == "get" and norm(cand.func.value) in tracked:
+                        tracked.add(nm)
+                        changed = True
+                        continue
+                    # through pass-through wrappers and conditional expressions: x = self._ensure_list(cfg.get("k", [])), x = cfg.get("k") if ... else []
+                    inner = [y for y in ast.walk(v0) if (isinstance(y, ast.Call) and isinstance(y.func, ast.Attribute) and y.func.attr == "get" and norm(y.func.value) in tracked) or
+                             (isinstance(y, ast.Subscript) and norm(y.value) in tracked)]
+                    wrapper_ok = isinstance(v0, ast.IfExp) or (isinstance(v0, ast.Call) and norm(v0.func).split(".")[-1] in ("_ensure_list", "_as_list")) or isinstance(v0, ast.BoolOp)
+                    if inner and wrapper_ok:
+                        tracked.add(nm)
+                        changed = True
+                        continue
+            for a in assigns:
+                nm = a.targets[0].id
+                if nm in tracked or nm in own and len([b for b in assigns if b.targets[0].id == nm]) == 1:
+                    continue
+                v = a.value
+                src = None
+                if isinstance(v, ast.Call) and isinstance(v.func, ast.Attribute) and v.func.attr == "get":
+                    src = v.func.value
+                elif isinstance(v, ast.Subscript):
+                    src = v.value
+                elif isinstance(v, ast.Attribute) and v.attr in ("params", "config", "payload", "data"):
+                    src = v.value
+                elif isinstance(v, ast.BoolOp) and isinstance(v.op, ast.Or) and isinstance(v.values[0], ast.Call) and isinstance(v.values[0].func, ast.Attribute) and v.values[0].func.attr == "get" \
+                        and not isinstance(v.values[-1], (ast.Dict, ast.List)):
+                    src = v.values[0].func.value
+                if src is not None and isinstance(src, ast.Name) and src.id in tracked and nm not in own:
+                    tracked.add(nm)
+                    changed = True
+
+        def rooted(e):
+            t = norm(e)
+            if t.startswith("self.machine.") or t == "self.machine":
+                return "the machine definition (self.machine...)"
+            base = e
+            while isinstance(base, (ast.Attribute, ast.Subscript)):
+                base = base.value
+            if isinstance(base, ast.Name) and base.id in tracked and base.id not in ("self", "cls"):
+                if isinstance(e, ast.Name) or isinstance(e, (ast.Subscript,)) or (isinstance(e, ast.Attribute) and e.attr in ("params", "config", "payload", "data", "context") and False):
+                    return f"'{base.id}' (data handed in by the caller / taken from the definition)"
+            if t in tracked:
+                return f"'{t}' (data handed in by the caller / taken from the definition)"
+            return None
+        for x in own_nodes(f.node):
+            hit = None
+            if isinstance(x, ast.Call) and isinstance(x.func, ast.Attribute) and x.func.attr in _MUTATORS:
+                r_ = rooted(x.func.value)
+                if r_ and not (isinstance(x.func.value, ast.Name) and x.func.value.id in own):
+                    hit = (x, r_)
+            elif isinstance(x, ast.Delete):
+                for t in x.targets:
+                    if isinstance(t, ast.Subscript) and rooted(t.value):
+                        hit = (x, rooted(t.value))
+            elif isinstance(x, (ast.Assign, ast.AugAssign)):
+                for t in (x.targets if isinstance(x, ast.Assign) else [x.target]):
+                    if isinstance(t, ast.Subscript) and rooted(t.value) and not (isinstance(t.value, ast.Name) and t.value.id in own):
+                        hit = (x, rooted(t.value))
+            if hit:
+                n += 1
+                key = f"{norm(hit[0] if not isinstance(hit[0], ast.Call) else hit[0].func)[:48]}"
+                ok = (f.short, key) in DEFINITION_MUTATIONS_ACCEPTED
+                c.ob(rid, ok, f, f"mutates-caller-data:{key}", f"accepted: {DEFINITION_MUTATIONS_ACCEPTED.get((f.short, key))}" if ok else
+                     f"'{stmt_text(hit[0], 80)}' in {f.short} mutates {hit[1]}: {what}", hit[0], nontrivial=not ok)
+    c.ob(rid, True, "engine", "caller-data-mutations", f"{n} mutations of caller / definition data found in {', '.join(modules)}", None, nontrivial=False)
+
+
+DEFINITION_MUTATIONS_ACCEPTED: Dict[Tuple[str, str], str] = {}
